@@ -197,8 +197,8 @@ def run(ctx):
         dns += ctx.tlc("DNSCache_gen", "DNSCache_gen_thorough.cfg").records
         dns += ctx.tlc("DNSCache_gen", "DNSCache_gen_thorough2.cfg").records
         n_exh = len(dns)
-    dns += ctx.tlc("DNSCache_gen", "DNSCache_gen_sim.cfg", workers=1, simulate=700 if quick else 12000, depth=120).records
-    dns += ctx.tlc("DNSCache_gen", "DNSCache_gen_sim1.cfg", workers=1, simulate=500 if quick else 8000, depth=120).records
+    dns += ctx.tlc("DNSCache_gen", "DNSCache_gen_sim.cfg", workers=1, simulate=700 if quick else 8000, depth=120).records
+    dns += ctx.tlc("DNSCache_gen", "DNSCache_gen_sim1.cfg", workers=1, simulate=500 if quick else 5000, depth=120).records
     dns = _dedupe(dns)
     _replay(ctx, "c19dns", dns, "DNS cache")
 
@@ -213,10 +213,10 @@ def run(ctx):
     else:
         tr = ctx.tlc("TransportCache_gen", "TransportCache_gen.cfg").records
         n_tr = len(tr)
-        tr = rng.sample(tr, min(len(tr), 20000))
-        tr += ctx.tlc("TransportCache_gen", "TransportCache_gen_sim.cfg", workers=1, simulate=6000, depth=80).records
+        tr = rng.sample(tr, min(len(tr), 8000))
+        tr += ctx.tlc("TransportCache_gen", "TransportCache_gen_sim.cfg", workers=1, simulate=3000, depth=80).records
         tr = _dedupe(tr)
-        ctx.notes["transport_schedules"] = "%d of %d enumerated (seeded sample) + simulated" % (min(n_tr, 20000), n_tr)
+        ctx.notes["transport_schedules"] = "%d of %d enumerated (seeded sample) + simulated" % (min(n_tr, 8000), n_tr)
     _replay(ctx, "c19tr", tr, "transport cache")
 
     # ---- 3. stress under the race detector (sampled) -----------------------------------------------------
